@@ -38,6 +38,9 @@ var Catalogue = []string{
 	"Open:missing-wrong-error", "Stat:missing-wrong-error", "Mkdir:existing-wrong-error", "Mkdir:missing-parent-wrong-error", "Remove:nonempty-wrong-error",
 	"Remove:missing-wrong-error", "Rename:missing-wrong-error", "OpenFile:dir-write-wrong-error", "file.Close:second-ok", "Open:invalid-path-accepted", "file.Seek:negative-accepted", "file.Write:readonly-accepted", "file.Truncate:negative-accepted",
 	"Mkdir:existing-accepted", "Remove:nonempty-accepted", "OpenFile:missing-created",
+	// the work is done and a failure is reported all the same
+	"Mkdir:spurious-error", "MkdirAll:spurious-error", "Remove:spurious-error", "Rename:spurious-error", "Stat:spurious-error", "Chmod:spurious-error", "Chtimes:spurious-error", "OpenFile:spurious-error",
+	"file.Close:spurious-error", "file.Read:spurious-error", "file.ReadAt:spurious-error", "file.Write:spurious-error", "file.WriteAt:spurious-error", "file.Seek:spurious-error", "file.Stat:spurious-error", "file.Truncate:spurious-error", "file.ReadDir:spurious-error",
 	// right kind and path, wrong concrete type: the *PathError wrapped by an annotating layer
 	"Mkdir:error-wrapped", "Remove:error-wrapped", "Open:error-wrapped", "Rename:error-wrapped",
 	// wrong error path
@@ -155,7 +158,7 @@ func (f *FS) Open(name string) (hackpadfs.File, error) {
 	return f.OpenFile(name, hackpadfs.FlagReadOnly, 0)
 }
 
-func (f *FS) OpenFile(name string, flag int, perm hackpadfs.FileMode) (hackpadfs.File, error) {
+func (f *FS) openFile0(name string, flag int, perm hackpadfs.FileMode) (hackpadfs.File, error) {
 	if f.isIf("Open:invalid-path-accepted", !hackpadfs.ValidPath(name)) {
 		name = path.Clean(name)
 		if !hackpadfs.ValidPath(name) {
@@ -219,7 +222,7 @@ func (f *FS) OpenFile(name string, flag int, perm hackpadfs.FileMode) (hackpadfs
 	return &File{fs: f, inner: file, flag: flag, name: name}, nil
 }
 
-func (f *FS) Mkdir(name string, perm hackpadfs.FileMode) error {
+func (f *FS) mkdir0(name string, perm hackpadfs.FileMode) error {
 	switch {
 	case f.is("Mkdir:noop"):
 		if _, err := f.inner.Stat(name); err != nil {
@@ -261,7 +264,7 @@ func (f *FS) Mkdir(name string, perm hackpadfs.FileMode) error {
 	return err
 }
 
-func (f *FS) MkdirAll(name string, perm hackpadfs.FileMode) error {
+func (f *FS) mkdirAll0(name string, perm hackpadfs.FileMode) error {
 	if f.isIf("MkdirAll:noop", hackpadfs.ValidPath(name)) {
 		if _, err := f.inner.Stat(name); err != nil {
 			return nil
@@ -276,7 +279,7 @@ func (f *FS) MkdirAll(name string, perm hackpadfs.FileMode) error {
 	return f.exclusive("mkdir", name, func() error { return f.inner.MkdirAll(name, perm) })
 }
 
-func (f *FS) Remove(name string) error {
+func (f *FS) remove0(name string) error {
 	switch {
 	case f.is("Remove:noop"):
 		if _, err := f.inner.Stat(name); err == nil {
@@ -345,7 +348,7 @@ func (f *FS) probeRemovable(name string) error {
 	return nil
 }
 
-func (f *FS) Rename(oldname, newname string) error {
+func (f *FS) rename0(oldname, newname string) error {
 	switch {
 	case f.is("Rename:noop"):
 		if _, err := f.inner.Stat(oldname); err == nil {
@@ -428,7 +431,7 @@ func (i devInfo) ModTime() time.Time {
 	return i.fs.utc(i.FileInfo.ModTime())
 }
 
-func (f *FS) Stat(name string) (hackpadfs.FileInfo, error) {
+func (f *FS) stat0(name string) (hackpadfs.FileInfo, error) {
 	info, err := f.inner.Stat(name)
 	if err != nil {
 		switch {
@@ -446,7 +449,7 @@ func (f *FS) Stat(name string) (hackpadfs.FileInfo, error) {
 	return devInfo{info, f, "Stat"}, nil
 }
 
-func (f *FS) Chmod(name string, mode hackpadfs.FileMode) error {
+func (f *FS) chmod0(name string, mode hackpadfs.FileMode) error {
 	if f.is("Chmod:noop") {
 		if _, err := f.inner.Stat(name); err == nil {
 			return nil
@@ -458,7 +461,7 @@ func (f *FS) Chmod(name string, mode hackpadfs.FileMode) error {
 	return f.inner.Chmod(name, mode)
 }
 
-func (f *FS) Chtimes(name string, atime, mtime time.Time) error {
+func (f *FS) chtimes0(name string, atime, mtime time.Time) error {
 	if f.is("Chtimes:noop") {
 		if _, err := f.inner.Stat(name); err == nil {
 			return nil
@@ -484,7 +487,7 @@ func (f *File) is(d string) bool { return f.fs.is(d) }
 
 func (f *File) isIf(d string, cond bool) bool { return f.fs.isIf(d, cond) }
 
-func (f *File) Close() error {
+func (f *File) close0() error {
 	if f.closed && f.is("file.Close:second-ok") {
 		return nil
 	}
@@ -492,7 +495,7 @@ func (f *File) Close() error {
 	return f.inner.Close()
 }
 
-func (f *File) Read(p []byte) (int, error) {
+func (f *File) read0(p []byte) (int, error) {
 	if f.closed && f.is("file.Read:after-close-ok") {
 		return 0, io.EOF
 	}
@@ -519,7 +522,7 @@ func (f *File) Read(p []byte) (int, error) {
 	return n, err
 }
 
-func (f *File) ReadAt(p []byte, off int64) (int, error) {
+func (f *File) readAt0(p []byte, off int64) (int, error) {
 	n, err := hackpadfs.ReadAtFile(f.inner, p, off)
 	if f.isIf("file.ReadAt:bytes", n > 0) {
 		p[n-1] ^= 0x20
@@ -533,7 +536,7 @@ func (f *File) ReadAt(p []byte, off int64) (int, error) {
 	return n, err
 }
 
-func (f *File) Write(p []byte) (int, error) {
+func (f *File) write0(p []byte) (int, error) {
 	if f.flag&3 == 0 && !f.is("file.Write:readonly-accepted") {
 		return hackpadfs.WriteFile(f.inner, p)
 	}
@@ -557,7 +560,7 @@ func (f *File) Write(p []byte) (int, error) {
 	return hackpadfs.WriteFile(f.inner, p)
 }
 
-func (f *File) WriteAt(p []byte, off int64) (int, error) {
+func (f *File) writeAt0(p []byte, off int64) (int, error) {
 	switch {
 	case f.isIf("file.WriteAt:noop", off >= 0 && f.flag&3 != 0):
 		return len(p), nil
@@ -567,7 +570,7 @@ func (f *File) WriteAt(p []byte, off int64) (int, error) {
 	return hackpadfs.WriteAtFile(f.inner, p, off)
 }
 
-func (f *File) Seek(offset int64, whence int) (int64, error) {
+func (f *File) seek0(offset int64, whence int) (int64, error) {
 	switch {
 	case f.isIf("file.Seek:noop", whence >= 0 && whence <= 2 && !(whence == io.SeekStart && offset < 0)):
 		cur, err := hackpadfs.SeekFile(f.inner, 0, io.SeekCurrent)
@@ -591,7 +594,7 @@ func (f *File) Seek(offset int64, whence int) (int64, error) {
 	return hackpadfs.SeekFile(f.inner, offset, whence)
 }
 
-func (f *File) Stat() (hackpadfs.FileInfo, error) {
+func (f *File) stat0() (hackpadfs.FileInfo, error) {
 	info, err := f.inner.Stat()
 	if err != nil {
 		return nil, err
@@ -599,7 +602,7 @@ func (f *File) Stat() (hackpadfs.FileInfo, error) {
 	return devInfo{info, f.fs, "file.Stat"}, nil
 }
 
-func (f *File) Truncate(size int64) error {
+func (f *File) truncate0(size int64) error {
 	if f.isIf("file.Truncate:noop", size >= 0 && f.flag&3 != 0) {
 		return nil
 	}
@@ -624,7 +627,7 @@ func (e devEntry) Type() hackpadfs.FileMode {
 	return e.DirEntry.Type()
 }
 
-func (f *File) ReadDir(n int) ([]hackpadfs.DirEntry, error) {
+func (f *File) readDir0(n int) ([]hackpadfs.DirEntry, error) {
 	ents, err := hackpadfs.ReadDirFile(f.inner, n)
 	first := f.dirPos == 0
 	f.dirPos += len(ents)
@@ -646,3 +649,86 @@ type WithReadFile struct{ *FS }
 
 // ReadFile implements hackpadfs.ReadFileFS
 func (f WithReadFile) ReadFile(name string) ([]byte, error) { return hackpadfs.ReadFile(f.inner, name) }
+
+// ---- "<op>:spurious-error": the operation does its work and reports a failure all the same ------------------------
+
+var errSpurious = errors.New("spurious failure")
+
+func (f *FS) spur(op, name string, err error) error {
+	if err == nil && f.is(op+":spurious-error") {
+		return &hackpadfs.PathError{Op: strings.ToLower(op[strings.LastIndex(op, ".")+1:]), Path: name, Err: errSpurious}
+	}
+	return err
+}
+
+func (f *FS) OpenFile(name string, flag int, perm hackpadfs.FileMode) (hackpadfs.File, error) {
+	file, err := f.openFile0(name, flag, perm)
+	if serr := f.spur("OpenFile", name, err); serr != err {
+		_ = file.Close()
+		return nil, serr
+	}
+	return file, err
+}
+func (f *FS) Mkdir(name string, perm hackpadfs.FileMode) error {
+	return f.spur("Mkdir", name, f.mkdir0(name, perm))
+}
+func (f *FS) MkdirAll(name string, perm hackpadfs.FileMode) error {
+	return f.spur("MkdirAll", name, f.mkdirAll0(name, perm))
+}
+func (f *FS) Remove(name string) error { return f.spur("Remove", name, f.remove0(name)) }
+func (f *FS) Rename(oldname, newname string) error {
+	err := f.rename0(oldname, newname)
+	if err == nil && f.is("Rename:spurious-error") {
+		return &hackpadfs.LinkError{Op: "rename", Old: oldname, New: newname, Err: errSpurious}
+	}
+	return err
+}
+func (f *FS) Stat(name string) (hackpadfs.FileInfo, error) {
+	info, err := f.stat0(name)
+	if serr := f.spur("Stat", name, err); serr != err {
+		return nil, serr
+	}
+	return info, err
+}
+func (f *FS) Chmod(name string, mode hackpadfs.FileMode) error {
+	return f.spur("Chmod", name, f.chmod0(name, mode))
+}
+func (f *FS) Chtimes(name string, atime, mtime time.Time) error {
+	return f.spur("Chtimes", name, f.chtimes0(name, atime, mtime))
+}
+
+func (f *File) Close() error { return f.fs.spur("file.Close", f.name, f.close0()) }
+func (f *File) Read(p []byte) (int, error) {
+	n, err := f.read0(p)
+	return n, f.fs.spur("file.Read", f.name, err)
+}
+func (f *File) ReadAt(p []byte, off int64) (int, error) {
+	n, err := f.readAt0(p, off)
+	return n, f.fs.spur("file.ReadAt", f.name, err)
+}
+func (f *File) Write(p []byte) (int, error) {
+	n, err := f.write0(p)
+	return n, f.fs.spur("file.Write", f.name, err)
+}
+func (f *File) WriteAt(p []byte, off int64) (int, error) {
+	n, err := f.writeAt0(p, off)
+	return n, f.fs.spur("file.WriteAt", f.name, err)
+}
+func (f *File) Seek(offset int64, whence int) (int64, error) {
+	n, err := f.seek0(offset, whence)
+	return n, f.fs.spur("file.Seek", f.name, err)
+}
+func (f *File) Stat() (hackpadfs.FileInfo, error) {
+	info, err := f.stat0()
+	if serr := f.fs.spur("file.Stat", f.name, err); serr != err {
+		return nil, serr
+	}
+	return info, err
+}
+func (f *File) Truncate(size int64) error {
+	return f.fs.spur("file.Truncate", f.name, f.truncate0(size))
+}
+func (f *File) ReadDir(n int) ([]hackpadfs.DirEntry, error) {
+	ents, err := f.readDir0(n)
+	return ents, f.fs.spur("file.ReadDir", f.name, err)
+}
